@@ -377,6 +377,15 @@ converter.register_unstructure_hook({class_name}, _unstructure_{class_name.lower
                     enum_member_name = default_str.upper().replace("-", "_").replace(" ", "_")
                     return f"{ps.name}.{enum_member_name}"
 
+            # An inline enum is promoted to a schema of its own and the property refers to it: the default has to be
+            # a member of that enum class, not the bare value (re-encoding an instance calls .value on it)
+            referred = getattr(ps, "_refers_to_schema", None)
+            if referred is not None and referred.enum and referred.generation_name and ps.default in referred.enum:
+                if isinstance(ps.default, str):
+                    return f"{referred.generation_name}({py_string_literal(ps.default)})"
+                if isinstance(ps.default, (int, float)) and not isinstance(ps.default, bool):
+                    return f"{referred.generation_name}({ps.default})"
+
             if isinstance(ps.default, str):
                 # ensure_ascii=False: json would spell a non-BMP character as a surrogate pair (\ud83d\ude00),
                 # which is a different string in Python source
